@@ -1433,3 +1433,65 @@ Section PipeInv.
     intros i x Hin. eapply raw_ok_rooted; eauto.
   Qed.
 End PipeInv.
+
+(* ================================================================== name + type together *)
+(* every non-empty path VALUE of every event of one (typed) queue_events() call on an item the pipeline delivers is
+   the watch path joined with the valid relative names of some entry - with the watch's type: exactly the value the
+   polling snapshot has for that entry *)
+Theorem typed_emit_value full rec wp ct it :
+  pv_bytes wp <> [] -> last_is_sep (pv_bytes wp) = false ->
+  item_strict (pv_bytes wp) it -> (forall p, wf_tree (ct p) = true) ->
+  forall e v, In e (fst (typed_emit full rec wp ct it)) -> (v = te_src e \/ v = te_dest e) ->
+  pv_bytes v <> [] ->
+  exists rel, forallb valid_name rel = true /\
+              v = tagged (pv_tag wp) (pv_bytes wp ++ relsuffix rel) /\ v = pjoins wp rel.
+Proof.
+  intros H1 H2 Hit Hc e v Hin Hv Hne.
+  assert (Her : In (erase_ev e) (fst (emit full rec (pv_bytes wp) ct it))).
+  { rewrite <- typed_emit_erase. unfold erase. cbn [fst]. now apply in_map. }
+  apply (emit_paths_strict (pv_bytes wp) H1 H2) in Her; [|exact Hit|exact Hc].
+  assert (Hr : rooted (pv_bytes wp) (pv_bytes v)).
+  { destruct Her as [Hs Hd]. destruct Hv as [-> | ->]; [destruct Hs as [Hs|Hs] | destruct Hd as [Hd|Hd]];
+      cbn in *; try contradiction; assumption. }
+  destruct Hr as [rel [Hrel Hb]]. exists rel. split; [exact Hrel|].
+  assert (Hp : v = pjoins wp rel) by (eapply event_path_agree; eauto).
+  split; [|exact Hp]. rewrite Hp. rewrite pjoins_tagged, joins_suffix by assumption. reflexivity.
+Qed.
+
+(* ================================================================== the root of a constructed pipeline is normalised *)
+Lemma basename_valid_normal p : valid_name (basename p) = true -> p <> [] /\ last_is_sep p = false.
+Proof.
+  unfold basename, last_is_sep. destruct (rev p) as [|c r] eqn:E; cbn [basename_rev].
+  - discriminate.
+  - destruct (N.eqb c sep); [discriminate|]. intros _. split; [intros ->; discriminate E | reflexivity].
+Qed.
+
+Lemma flookup_in p t e : flookup p t = Some e -> In e t /\ f_path e = p.
+Proof.
+  induction t as [|x t IH]; cbn; [discriminate|]. destruct (beqb p (f_path x)) eqn:E.
+  - intros H; inversion H; subst. apply beqb_eq in E. split; [left; reflexivity | now symmetry].
+  - intros H. destruct (IH H) as [H1 H2]. split; [right; exact H1 | exact H2].
+Qed.
+
+(* the model's file system is keyed by the spelling of the root, and its entries have valid basenames: a pipeline
+   can only be constructed on a root that is non-empty and does not end in '/' *)
+Lemma pinit_root_normal P w s :
+  fs_names_ok (w_fs w) -> pinit P w = Some s ->
+  c_root (pc_reader P) <> [] /\ last_is_sep (c_root (pc_reader P)) = false.
+Proof.
+  intros Hw H. unfold pinit, construct in H.
+  destruct (fisdir (c_root (pc_reader P)) (w_fs w)) eqn:E; [|discriminate].
+  unfold fisdir in E. destruct (flookup (c_root (pc_reader P)) (w_fs w)) as [e|] eqn:El; [|discriminate].
+  apply flookup_in in El as [Hin Hp]. apply basename_valid_normal. rewrite <- Hp. now apply Hw.
+Qed.
+
+Theorem pipeline_paths_any P w s0 h s obs :
+  fs_names_ok (w_fs w) -> (forall o, In (AOp o) h -> op_names_ok o) ->
+  pinit P w = Some s0 -> prun P s0 h [] = Done (s, obs) ->
+  path_inv (c_root (pc_reader P)) (p_r s) /\
+  (forall i x, In (i, x) (p_tbl s) -> rooted (c_root (pc_reader P)) (r_path x)) /\
+  (forall e, In e (p_out s) -> ev_ok (c_root (pc_reader P)) e).
+Proof.
+  intros Hw Hh H0 H. destruct (pinit_root_normal P w s0 Hw H0) as [H1 H2].
+  eapply pipeline_paths; eauto.
+Qed.
